@@ -67,15 +67,14 @@ def _apply(v: Variant, root: str) -> Optional[str]:
                     with open(p, "w") as fh:
                         fh.write("# line shift\n" * 7 + s)
         return None
-    edits = [(v.file, v.old, v.new)] + list(v.edits or [])
-    for i, (f, old, new) in enumerate(edits):
+    edits = [(v.file, v.old, v.new, v.count)] + [tuple(e) + ((1,) if len(e) == 3 else ()) for e in (v.edits or [])]
+    for i, (f, old, new, want) in enumerate(edits):
         p = os.path.join(root, f)
         if not os.path.isfile(p):
             return "file %s not present" % f
         with open(p) as fh:
             s = fh.read()
         n = s.count(old)
-        want = v.count if i == 0 else 1
         if n != want:
             return "target snippet occurs %d times in %s (expected %d)" % (n, f, want)
         with open(p, "w") as fh:
